@@ -214,7 +214,7 @@ func (v *Validator) validateFile(filename string) output.FileValidationResult {
 	inputResult, err := DetectAndReadInput(filename)
 	if err != nil {
 		// Special handling for empty files - they're considered valid
-		if strings.Contains(err.Error(), "file is empty") {
+		if strings.HasPrefix(err.Error(), "file is empty: ") { // the message itself, not a path that happens to contain these words
 			result.Valid = true
 			result.Size = 0
 			return result
